@@ -7,6 +7,7 @@ import RitiModel.Model.Context
 import RitiModel.Model.Okkhor
 import RitiModel.Lemmas.Split
 import RitiModel.Lemmas.Rank
+import RitiModel.Lemmas.Phonetic
 import RitiModel.Spec.LayoutSpec
 namespace Riti.C03
 open Riti Riti.Gen
@@ -113,14 +114,8 @@ theorem translit_is_candidate (env : Env) (cfg : Cfg) (cache : Memo) (term : Str
       refine ⟨x, hx, ?_⟩
       simp [hxt, hne.1, hne.2]
   obtain ⟨y, hy, hyt⟩ := hdict
-  have hextra : y ∈ addExtras env cfg term ⟨p', s.word, r'⟩ (dictList env cache ⟨p', s.word, r'⟩) := by
-    unfold addExtras
-    simp only
-    split <;> (try split) <;> (try split) <;> (try split) <;> (try split) <;>
-      first
-        | exact hy
-        | (apply mem_pushChecked_of_mem; first | exact hy | (apply List.mem_append_left; first | exact hy | exact mem_pushChecked_of_mem hy) | (simp; first | exact Or.inl hy | exact Or.inl (mem_pushChecked_of_mem hy)))
-        | (apply List.mem_append_left; first | exact hy | exact mem_pushChecked_of_mem hy)
+  have hextra : y ∈ addExtras env cfg term ⟨p', s.word, r'⟩ (dictList env cache ⟨p', s.word, r'⟩) :=
+    mem_addExtras_of_mem hy
   apply List.mem_map.mpr
   refine ⟨y, ?_, hyt⟩
   simp only [suggestList, hparts]
